@@ -58,6 +58,8 @@ def scenarios(tier):
         add("crash-map-3", chain(("M", Map(chain(("I", Task("fi"))))), Z), workers={"fi": {"*": [["echo"]]}}, input=[1, 2, 3])
     return out
 
+SLOWBOOT = ("crash-pass-task-pass", "crash-parallel-tasks", "crash-wait", "crash-task-retry")
+
 def canonical(sc):
     from harness.world import World
     w = World(sc)
@@ -102,13 +104,13 @@ def run(tier, seed):
     scs = scenarios(tier)
     jobs = []
     by_name = {}
-    npoints = {"between": 0, "inflight": 0, "midstep": 0, "double": 0, "downtime": 0}
+    npoints = {"between": 0, "inflight": 0, "midstep": 0, "double": 0, "downtime": 0, "slowboot": 0}
     limits0 = {"max_states": 20000 if tier == "quick" else 200000, "max_depth": 400, "only": list(MONITORS)}
     for sc in scs:
         common.annotate(sc)
         labels, ops = canonical(sc)
         for k in range(len(labels) + 1):
-            for variant in ("between", "inflight") + (("downtime",) if sc.get("downtime") else ()):
+            for variant in ("between", "inflight") + (("downtime",) if sc.get("downtime") else ()) + (("slowboot",) if sc["name"] in SLOWBOOT else ()):
                 if variant == "downtime" and not (sc["_wait_armed"][k] and sc["_clock"][k] + sc["downtime"] < sc["machines"]["m"]["definition"].get("TimeoutSeconds", 1e9)):
                     continue     # downtime before the Wait is entered / past the deadline legitimately ends in the execution time-out
                 s2 = copy.deepcopy(sc)
@@ -117,6 +119,10 @@ def run(tier, seed):
                 s2["family"] = "%s/%s" % (sc["family"], variant)
                 s2["preserve_outcome"] = True
                 crash = ["crash", 1, "inflight"] if variant == "inflight" else ["crash", 1]
+                if variant == "slowboot":
+                    # the restarted instance's start-up is explored step by step: what waits in the queues can be delivered between two
+                    # confirmations of its declarations / subscriptions
+                    s2["slow_start"] = True
                 pre = labels[:k] + [crash] + ([["sleep", sc["downtime"]]] if variant == "downtime" else []) + [["restart", 1]]
                 if k < sc.get("crash_from", 0):
                     continue
@@ -154,7 +160,7 @@ def run(tier, seed):
         "capped": tot["capped"], "max_depth": tot["max_depth"], "exhaustive": not tot["capped"] and tot["bounded"] == 0,
         "closed_explorations": tot["closed"], "deviation_bounded_explorations": tot["bounded"],
         "explanation": "for every scenario: every crash point between two atomic steps of the canonical run (plain and with the head message of every consumed queue already "
-                       "in flight to the dead process) and every crash point after an individual broker operation inside a step; after the restart all interleavings of redelivered "
+                       "in flight to the dead process; for four scenarios also with the restarted instance's start-up explored confirmation by confirmation) and every crash point after an individual broker operation inside a step; after the restart all interleavings of redelivered "
                        "events, pending worker replies and timers are explored (closed; the nested fan-out scenarios with at most 2 deviations from the canonical order in the quick tier). Oracles: no execution lost; (between-steps) same terminal status/output as crash-free; no correlation id requested twice",
     }
     cr.assumptions = list(common.ASSUME_SIM) + ["a crash = the broker sees the connection drop: all unacked deliveries are requeued at their original position flagged redelivered; "
